@@ -117,7 +117,7 @@ CHECKS = {
         "Gaussian-integer inputs compared with = inside Coq; end to end (random aggregates x theories x options) the tensor is compared "
         "(1e-12 relative) with the model fed the run's own K_m, Lambda_m / rate matrix / Redfield part. Modified Redfield and "
         "TDRedfieldFoerster cannot be built on the pinned tree (TypeError / not offered) and are counted as unavailable, not judged.",
-   design="7/C01", technique="Coq proof (ring algebra over an abstract *-ring, sums by induction) + model of three kernels regenerated from the source by a translator with machine-checked equivalence lemmas + in-Coq differential correspondence (exact on Gaussian integers, 1e-12 end to end)"),
+   design="7/C01", technique="Coq proof (ring algebra over an abstract *-ring, sums by induction) + static tie: _loopit, the time-dependent assembly body, the secular zeroing condition, updateStructure (both branches), add_dephasing (static/TD), the Redfield-Foerster rate loop and the assembly glue (Kd, Ld, argument order, Lindblad llm/lld) regenerated from the source on every run by a fail-closed translator, with machine-checked equivalence lemmas to Model/C01.v (sequential-write skeletons in Proofs/C01gen.v) + in-Coq differential correspondence (exact on Gaussian integers, 1e-12 end to end)"),
  "C03": dict(
    text="Proved in Coq: for EVERY number of molecules, every level structure and every multiplicity the signature enumeration "
         "(elsignatures/_add_excitation/allstates) is complete, duplicate free and ordered by band; which_band is the excitation "
@@ -134,8 +134,11 @@ CHECKS = {
         "under unit contexts (1e-12); raw elsignatures calls up to 4 levels; dipole-dipole geometries (1e-12, sqrt an oracle with "
         "RR^2 = R.R monitored); lifecycle: the site-basis operators handed out after diagonalize(), inside/after eigenbasis_of(H), "
         "after a second build() and rebuild() are re-checked (bit-equal snapshot, second in-Coq tie, DD = S^T D S). Multi-level sites: enumeration only (matrix elements with sqrt factors transcribed, not tied); "
-        "fem_full not covered; asymmetric coupling matrices are refused by the code and outside the quantifier.",
-   design="7/C03", technique="Coq proof (induction over the level-by-level generator, lia/nia, ring over an abstract *-ring, field over an abstract field) + exact in-Coq correspondence"),
+        "fem_full not covered; asymmetric coupling matrices are refused by the code and outside the quantifier. Static tie: trusts the "
+        "template translator harness/translate_c03.py (node-for-node statement matching, projection of _build onto statements naming "
+        "HH/DD/operators, list indices read as non-negative), treats convert_energy_2_current_u and numpy.real as identities inside "
+        "build()'s energy_units('int') context (the wrapper itself is matched).",
+   design="7/C03", technique="Coq proof (induction over the level-by-level generator, lia/nia, ring over an abstract *-ring, field over an abstract field) + exact in-Coq correspondence + static tie: the state enumeration (elsignatures, _add_excitation), band/index bookkeeping, _get_exindx, transition_dipole, the vibronic decision tree of coupling, ElectronicState.energy, the HH/DD/Nb statements of _build (sliced by data flow) and the dipole-dipole expression, prefactor and matrix setter are translated from the current source on every run into instances of skeleton combinators (Proofs/C03gen.v) and proved equal to elsigs, exindx, trdip, coupling, energy, build_H, build_D, Nb, dipole_dipole, dd_matrix"),
  "C10": dict(
    text="Proved in Coq: for every list of level counts the vibrational signatures (numpy.ndindex) are complete, duplicate free, "
         "row-major ordered and prod(nmax) in number; Ntot = sum over electronic states of prod(nmax) with the per-electronic-state "
@@ -150,8 +153,9 @@ CHECKS = {
         "within 1e-12 relative (aggregates built, changed through set_HR and built again / rebuilt are compared with fresh builds) "
         "with the model over Q fed the real parts of the implementation's own FC tables (imaginary parts <= "
         "1e-12 monitored); raw vsignatures cases exact. Full vibrational space only: the truncated generators (vibgen_approx) raise "
-        "AttributeError (numpy.int) on the pinned NumPy and are excluded by the property.",
-   design="7/C10", technique="Coq proof (induction over mode lists, ring over an abstract *-ring with the FC table as a Section variable) + in-Coq correspondence (exact state lists, 1e-12 matrix elements)"),
+        "AttributeError (numpy.int) on the pinned NumPy and are excluded by the property. Static tie: numpy.ndindex and the "
+        "Franck-Condon tables remain oracles; the translator (translate_c03.py / translate_c10.py) is trusted as for C03.",
+   design="7/C10", technique="Coq proof (induction over mode lists, ring over an abstract *-ring with the FC table as a Section variable) + in-Coq correspondence (exact state lists, 1e-12 matrix elements) + static tie: the sub-mode collection of ElectronicState.__init__, vsignatures (full space), fc_factor including its table key, the vibrational part of the energy, allstates and the HH/DD/FC/Ntot/Nb statements of _build are regenerated from the source and proved equal to vibmodes_of, fc_factor, venergy, vstates, vH, vD, vFC, vNb (Proofs/C10gen.v)"),
  "C15": dict(
    text="Proved in Coq (closed) in an EFFECT model of tensor construction (9 kinds incl. the raising ones), rate matrix, propagate of 13 "
         "density-matrix propagator kinds (with Nref and order arguments), state-vector / population / hierarchy propagate and "
@@ -168,8 +172,10 @@ CHECKS = {
         "histories (5-12 API calls on one shared dimer/trimer world whose propagators partly carry their own step refinement; tensor "
         "and rate-matrix calls made inside none / 1/cm / eV unit contexts) with the call list, the changed-field list per call and the "
         "equality class of each result compared exactly with Model.C15.trace (repaired and pinned variants); any unmodelled changed "
-        "attribute is a violation. Non-equilibrium Foerster, field-driven propagation and get_kernel are not exercised.",
-   design="7/C15", technique="Coq proof (effect model, symbolic execution proved sound + reflection over all call shapes, induction over histories) + differential deep-snapshot correspondence"),
+        "attribute is a violation. Non-equilibrium Foerster, field-driven propagation and get_kernel are not exercised. Static tie: the abstract "
+        "interpreter of harness/translate_c15.py, its per-shape branch conditions and its whitelists (library functions, tensor "
+        "constructors with declared cache effects, basis/unit contexts; printed into the generated file) join the trusted base.",
+   design="7/C15", technique="Coq proof (effect model, symbolic execution proved sound + reflection over all call shapes, induction over histories) + static tie: a fail-closed write-set / last-write / exposed-read analysis of the current source of the API methods (51 call shapes) compared inside Coq with the written and changed fields of the model's programs (equal written sets; changed fields within model_changed; exposed reads are inputs) + differential deep-snapshot correspondence"),
  "C18": dict(
    text="Proved in Coq (closed): packing data with an axis and extracting it is the identity for (N,) and (N,M>=2) arrays of every "
         "size; export/import through dat/txt/npy/npz/mat with or without axis is the identity on every array the formats can "
@@ -183,8 +189,10 @@ CHECKS = {
    note=TB + "All C18 theorems closed under the global context. Tie: the exhaustive matrix {dat,txt,npy,npz,mat} x {real,complex} x "
         "{axis,no axis} x 7 shapes through DataSaveable.save_data/load_data and MatrixData compared exactly in Coq; random "
         "new/read/enter/leave/save/load programs on real operators with exact signed-permutation contexts compared exactly with the "
-        "model; 21 Saveable classes x {none, units, basis} context at save x at load monitored (raw content, observables 1e-12).",
-   design="7/C18", technique="Coq proof (list-level model of pack/extract/format dispatch; C04 state machine extended with save/load) + exhaustive finite matrix and random programs compared exactly in Coq"),
+        "model; 21 Saveable classes x {none, units, basis} context at save x at load monitored (raw content, observables 1e-12). Static "
+        "tie: the translator harness/translate_c18.py and the exact-shape meaning given to numpy slice assignments in Proofs/C18gen.v "
+        "join the trusted base; file I/O stays an oracle.",
+   design="7/C18", technique="Coq proof (list-level model of pack/extract/format dispatch; C04 state machine extended with save/load) + static tie: _data_with_axis / _extract_data_with_axis, the extension dispatch and writer/reader methods of DataSaveable and MatrixData, savedir / loaddir and parcel.py template-matched from the current source, their constants, index expressions, dtype expression, ndmin and tag filter proved equal to Model/C18.v through skeleton lemmas in Proofs/C18gen.v + exhaustive finite matrix and random programs compared exactly in Coq"),
  "C02": dict(
    text="Proved in Coq over any commutative *-ring with imaginary unit, every dimension, EVERY expansion order (any prefactor list), "
         "refinement factor and number of steps: every stored density matrix has the trace of the initial one whenever the generators "
